@@ -40,7 +40,7 @@ func init() {
 			"verifier (own TLV reader + crypto/ecdsa, crypto/rsa) with golang.org/x/crypto/ocsp as second opinion; non-trivial = the untampered message was accepted and every listed field " +
 			"was compared / the tampered message was decided by zcrypto; distinct = hash of the template description or of (seed response, mutation); enumerated flips are distinct by construction",
 		MinNontrivial:         150000,
-		MinNontrivialThorough: 2000000,
+		MinNontrivialThorough: 1800000,
 		Shards:                16,
 		Assumptions: []string{
 			"\"to the second\": |parsed − template| < 1 s; ProducedAt is read from the wall clock by CreateResponse and never compared",
@@ -363,7 +363,9 @@ func compareRT(p *zocsp.Response, rc *rtCase) (string, string) {
 func (e *c13env) create(rc *rtCase) ([]byte, error, *core.PanicInfo) {
 	var out []byte
 	var err error
-	pi := core.Guard(func() { out, err = zocsp.CreateResponse(e.issuers[rc.issuer].z, rc.resp.z, rc.tmpl, rc.signer.signer()) })
+	pi := core.Guard(func() {
+		out, err = zocsp.CreateResponse(e.issuers[rc.issuer].z, rc.resp.z, rc.tmpl, rc.signer.signer())
+	})
 	return out, err, pi
 }
 
